@@ -518,6 +518,16 @@ def _faithful_histories(ctx, pk):
             if src:
                 texts = [["%import " + src[0][0]], ["%import " + e[0], "<%s/>" % nm], ["<%s/>" % nm], ["%import " + src[0][0], "<%s/>" % nm]]
                 hists.append((texts, [() for _ in texts]))
+        # directed: a load that first names a component the SCHEMA itself imports (nothing to add) and then a new one - the new
+        # one must still go into a private copy; afterwards its types are used without importing them
+        for sname in list(sd.imports)[:2]:
+            others = [e for e in pkgs if e[0] not in sd.imports]
+            for e in rng.sample(others, min(2, len(others))):
+                ts = [t.name for t in e[1] if not t.abstract and t.implements and t.name != "pown"][:1]
+                texts = [["%import " + sname, "%import " + e[0]] + ["<%s/>" % n for n in ts], ["<%s/>" % n for n in ts] or ["plain v"],
+                         ["%import " + e[0]] + ["<%s/>" % n for n in ts]]
+                hists.append((texts, [() for _ in texts]))
+                ctx.count("faithful:directed:schema-level-import-then-new-component")
         if ctx.driver_ok:
             reqs = [[Atom("histapp"), elab, mp, [], [], [], [[cfgstream.URL, list(t), list(o)] for t, o in zip(texts, ovs)]]
                     for texts, ovs in hists]
@@ -560,36 +570,50 @@ def _faithful_histories(ctx, pk):
                                 "tables (or leaves other tables behind): the history acts through something else" % (i + 1, out[:3], outt[:3]),
                                 rep, signature="C13:faithful:later-load-influenced-beyond-implementers")
                     break
+                # the faithful model on the same step (it is what the listed finding means, load by load)
+                m_why, m_schema_ok, mstop = None, True, None
+                if ans is not None:
+                    if (ans and ans[0] == "bad-request") or i >= len(ans):
+                        ctx.disagree("faithful-history", rep, "request", ans[:2])
+                        break
+                    mo, ms, mstop = ans[i]
+                    m = ["ok", mo[1], mo[2]] if mo[0] == "ok" else cfgrun.canon_model(mo)
+                    m_why = cfgrun.compare_load(m, out, cfg, None, ())
+                    m_schema_ok = enc(ms) == enc(after)
+                    rep["model_outcome"] = m[:5]
+                    rep["model_stop"] = mstop
                 grew = enc(after) != enc(before)
+                differs = not same(out, cfg, outf, cfgf)
                 if grew:
                     ctx.count("faithful:tables-grew")
                     if out[0] != "ok":
                         ctx.count("faithful:tables-grew-in-a-failed-load")
-                if grew or not same(out, cfg, outf, cfgf):
-                    if not same(out, cfg, outf, cfgf):
+                if differs and m_why is not None:
+                    # the used schema object gives something else than a fresh one, and NOT what the listed finding makes of
+                    # this history (the faithful model says otherwise): a failing input of its own
+                    ctx.violate("load %d gives %s on the used schema object, %s on a fresh one, and the implementer-table leak does "
+                                "not account for it (the faithful history model gives %s)" % (i + 1, out[:3], outf[:3], m[:3]),
+                                rep, signature="C13:faithful:outcome-depends-on-history-beyond-the-known-leak")
+                    break
+                if grew and not m_schema_ok:
+                    ctx.violate("after load %d the implementer tables of the schema object are not what the listed finding makes of "
+                                "this history (the faithful history model lists %r)"
+                                % (i + 1, [te for te in ms[1] if te[1][0] == "abstract"]), rep,
+                                signature="C13:faithful:tables-changed-beyond-the-known-leak")
+                    break
+                if grew or differs:
+                    if differs:
                         ctx.count("faithful:outcome-differs-from-fresh(explained-by-the-tables)")
                     # the listed finding (and what follows from it, shown above to go through the tables only)
                     ctx.violate("implementer tables of the application's schema object grow through %import; later loads see them",
                                 rep, signature=known_sig)
-                if ans is None:
-                    continue
-                if ans and ans[0] == "bad-request" or i >= len(ans):
-                    ctx.disagree("faithful-history", rep, "request", ans[:2])
+                if m_why is not None:
+                    ctx.disagree("faithful-history:outcome", rep, out[:4], [m_why, m[:5]])
                     break
-                mo, ms, mstop = ans[i]
-                m = ["ok", mo[1], mo[2]] if mo[0] == "ok" else cfgrun.canon_model(mo)
-                why = cfgrun.compare_load(m, out, cfg, None, ())
-                if why is not None:
-                    rep2 = dict(rep)
-                    rep2["model_stop"] = mstop
-                    ctx.disagree("faithful-history:outcome", rep2, out[:4], [why, m[:5]])
-                    break
-                if enc(ms) != enc(after):
-                    rep2 = dict(rep)
-                    rep2["model_stop"] = mstop
-                    ctx.disagree("faithful-history:schema-object", rep2, [te for te in after[1] if te[1][0] == "abstract"],
+                if not m_schema_ok:
+                    ctx.disagree("faithful-history:schema-object", rep, [te for te in after[1] if te[1][0] == "abstract"],
                                  [te for te in ms[1] if te[1][0] == "abstract"])
                     break
-                if mstop[2] != "none":
+                if mstop is not None and mstop[2] != "none":
                     ctx.count("faithful:model:component-broke-off")
         ctx.sample({"faithful_history": hists[0][0], "schema_level_imports": list(sd.imports)}, cap=16)
